@@ -73,6 +73,13 @@ func (o OpCode) String() string {
 }
 
 func getOpCode(op string) (OpCode, error) {
+	// mnemonics are ASCII: a name with other letters is a label even when
+	// lower-casing it gives a mnemonic ("dİv" -> "div")
+	for i := 0; i < len(op); i++ {
+		if op[i] >= 0x80 {
+			return 0, fmt.Errorf("invalid opcode '%s'", op)
+		}
+	}
 	switch strings.ToLower(op) {
 	case "dat":
 		return DAT, nil
